@@ -139,7 +139,9 @@ def operator(signature, precedence, associativity, awaited=True, pure=True, toke
     def decorator(fn):
         Class.fn = fn
         Class.__name__ = fn.__name__
-        Class.return_type = typing.get_type_hints(fn).get("return")
+        # Operators that only report a misuse (e.g. '@x' as a value) carry no
+        # annotations; they return their integer operand
+        Class.return_type = typing.get_type_hints(fn).get("return", int)
         return Class
 
     return decorator
